@@ -126,12 +126,35 @@ def lattice_linear_clauses(kernel, sizes, monos, unis, init_min, init_max, units
   return cl
 
 
+_BUILD_SCRIPT = """
+kw = args[0]
+ly = mod('lattice_layer')
+layer = ly.Lattice(**kw)
+rank = len(kw['lattice_sizes'])
+layer.build([None, rank] if kw['units'] == 1 else [None, kw['units'], rank])
+result = {'kernel_shape': [int(s) for s in layer.kernel.shape]}
+"""
+
+
 class LatticeInitCase(Case):
   contract_key = None
   xcheck = False
 
   def setup(self, cfg, c):
     c.sort_mode = 'abstract'
+
+  def replay_desc(self, cfg, model, g):
+    if not g.get('name', '').startswith('layer-builds-with-its-own-initializer'):
+      return None
+    sizes = list(cfg['sizes'])
+    kw = dict(lattice_sizes=sizes, units=cfg['units'], monotonicities=list(cfg.get('monos') or [0] * len(sizes)),
+              unimodalities=list(cfg.get('unis') or [0] * len(sizes)), output_min=cfg.get('output_min'),
+              output_max=cfg.get('output_max'), kernel_initializer=cfg['init'])
+    return {'kind': 'script', 'code': _BUILD_SCRIPT, 'floatx': 'float32', 'args': [kw], 'kwargs': {}}
+
+  def replay_eval(self, cfg, model, g, desc, nat):
+    return {'native': {k: v for k, v in nat.items() if k != 'trace'},
+            'failing': ['building the layer raised ' + nat['error'][:200]] if 'error' in nat else []}
 
   def body(self, cfg, c):
     ly = load.mod('lattice_layer')
@@ -149,6 +172,11 @@ class LatticeInitCase(Case):
       layer = ly.Lattice(**kw)
       rank = len(sizes)
       layer.build(tfc.TensorShape([None, rank] if U == 1 else [None, U, rank]))
+    except (IndexError, KeyError, TypeError, AssertionError, ZeroDivisionError) as e:
+      # the valid configuration cannot even be built with the library's own initializer
+      if isinstance(e, (tfc.NoContract, E.SymbolicValueError)):
+        raise
+      return [('layer-builds-with-its-own-initializer: raised %s: %s' % (type(e).__name__, str(e)[:80]), E.FALSE)]
     finally:
       if isinstance(ll.np, _NpProxy):
         ll.np = np
